@@ -127,6 +127,7 @@ type Ctx struct {
 	UFs    map[string]*UFDecl
 	USorts map[string]bool
 	tt, ff *Term
+	rcache map[int]srng
 }
 
 func NewCtx() *Ctx {
@@ -580,6 +581,23 @@ func (c *Ctx) BVOp(op Op, a, b *Term) *Term {
 			return c.BV(w, 0)
 		}
 	}
+	if w <= 64 && (op == OUDiv || op == OURem || op == OSDiv || op == OSRem || op == OMul) {
+		ra, rb := c.rangeOf(a), c.rangeOf(b)
+		if op == OMul {
+			rr := c.rangeCompute(&Term{Op: OMul, S: a.S, Args: []*Term{a, b}})
+			if k := narrowWidth(w, ra, rb, rr); k > 0 {
+				return c.SExt(c.bin(OMul, SBV(k), c.Extract(a, k-1, 0), c.Extract(b, k-1, 0)), w)
+			}
+		} else if op == OSDiv || op == OSRem {
+			if k := narrowWidth(w, ra, rb); k > 0 {
+				return c.SExt(c.bin(op, SBV(k), c.Extract(a, k-1, 0), c.Extract(b, k-1, 0)), w)
+			}
+		} else if ra.lo >= 0 && rb.lo >= 0 {
+			if k := narrowWidth(w, ra, rb); k > 0 {
+				return c.ZExt(c.bin(op, SBV(k), c.Extract(a, k-1, 0), c.Extract(b, k-1, 0)), w)
+			}
+		}
+	}
 	return c.bin(op, a.S, a, b)
 }
 
@@ -637,6 +655,9 @@ func (c *Ctx) Extract(a *Term, hi, lo int) *Term {
 		iw := a.Args[0].S.W
 		if hi < iw {
 			return c.Extract(a.Args[0], hi, lo)
+		}
+		if lo == 0 {
+			return c.SExt(a.Args[0], nw)
 		}
 	case OConcat:
 		// args are high..low
@@ -809,6 +830,16 @@ func (c *Ctx) Eq(a, b *Term) *Term {
 		}
 		return c.Eq(a.Args[0], c.BVBig(iw, b.BigVal()))
 	}
+	if (a.Op == OSExt && b.Op == OSExt || a.Op == OZExt && b.Op == OZExt) && a.Args[0].S == b.Args[0].S {
+		return c.Eq(a.Args[0], b.Args[0])
+	}
+	if b.IsConst() && a.Op == OSExt {
+		iw := a.Args[0].S.W
+		if !fullRange(iw).contains(c.signedBig(b)) {
+			return c.ff
+		}
+		return c.Eq(a.Args[0], c.BVBig(iw, c.signedBig(b)))
+	}
 	if a.ID > b.ID && !b.IsConst() {
 		a, b = b, a
 	}
@@ -862,6 +893,25 @@ func (c *Ctx) Cmp(op Op, a, b *Term) *Term {
 			uop = OUle
 		}
 		return c.Cmp(uop, a, b)
+	}
+	if (op == OSlt || op == OSle) && a.Op == OSExt && b.Op == OSExt && a.Args[0].S == b.Args[0].S {
+		return c.Cmp(op, a.Args[0], b.Args[0])
+	}
+	if (op == OUlt || op == OUle) && a.Op == OZExt && b.Op == OZExt && a.Args[0].S == b.Args[0].S {
+		return c.Cmp(op, a.Args[0], b.Args[0])
+	}
+	if (op == OSlt || op == OSle) && a.S.W <= 64 {
+		// decide by ranges where possible, else narrow
+		ra, rb := c.rangeOf(a), c.rangeOf(b)
+		if ra.hi < rb.lo || (op == OSle && ra.hi <= rb.lo) {
+			return c.tt
+		}
+		if ra.lo > rb.hi || (op == OSlt && ra.lo >= rb.hi) {
+			return c.ff
+		}
+		if k := narrowWidth(a.S.W, ra, rb); k > 0 {
+			return c.bin(op, SBool, c.Extract(a, k-1, 0), c.Extract(b, k-1, 0))
+		}
 	}
 	return c.bin(op, SBool, a, b)
 }
